@@ -201,7 +201,7 @@ RULES = ("R-log", "R-errmsg", "R-underscore", "R-ctorfn")
 HS = [("anyhow::Result<Self>", "Result<Self, AnyhowError>", None), ("zksync_protobuf::proto::std::", "proto::std::", None)]
 
 
-def impl(U, file, ty, proto_ty, enc, read=None, build=None, label=None):
+def impl(U, file, ty, proto_ty, enc, read=None, build=None, label=None, props=None):
     """one `impl ProtoFmt for <ty>` block; enc = body of the spec fn."""
     rd = dict(header_subs=HS, rules_=RULES, ret="res", proof_at_start=BU)
     rd.update(read or {})
@@ -215,7 +215,7 @@ def impl(U, file, ty, proto_ty, enc, read=None, build=None, label=None):
     rd["subs"] = [("Self::Proto {", proto_ty + " {", None)] + PATHS + (rd.get("subs") or [])
     U.trait_impl(file, "impl ProtoFmt for " + ty,
                  extra="    open spec fn enc(&self) -> " + proto_ty + " {\n        " + enc.strip() + "\n    }",
-                 fns=dict(read=rd, build=bd), header_subs=HS, label=label)
+                 fns=dict(read=rd, build=bd), header_subs=HS, label=label, props=props)
 
 
 ROUNDTRIP = r"""
@@ -584,7 +584,7 @@ def build(repo):
     impl(U, Q.F_RC, "ReplicaCommit", "proto::ReplicaCommitV2",
          "proto::ReplicaCommitV2 { view: Some(self.view.enc()), proposal: Some(self.proposal.enc()) }")
     U.item(Q.F_CONS2, "enum Phase", attrs=T.D_COPY)
-    impl(U, Q.F_CONS2, "Phase", "proto::PhaseV2", """proto::PhaseV2 { t: Some(match self {
+    impl(U, Q.F_CONS2, "Phase", "proto::PhaseV2", props=["C09", "C03"], enc="""proto::PhaseV2 { t: Some(match self {
             Phase::Prepare => proto::phase_v2::T::Prepare(proto::std::Void {}),
             Phase::Commit => proto::phase_v2::T::Commit(proto::std::Void {}),
             Phase::Timeout => proto::phase_v2::T::Timeout(proto::std::Void {}),
@@ -722,7 +722,7 @@ def build(repo):
     U.item(F_STATE, "struct ChonkyV2State")
     U.item(F_STATE0, "enum ReplicaState")
     clo = lambda ty, pty: "|verif_x: &%s| -> (verif_o: %s) ensures verif_o == verif_x.enc() { verif_x.build() }" % (ty, pty)
-    impl(U, F_STATE, "ChonkyV2State", "proto::ChonkyV2State",
+    impl(U, F_STATE, "ChonkyV2State", "proto::ChonkyV2State", props=["C09", "C03"], enc=
          """proto::ChonkyV2State { epoch: Some(self.epoch.0), view_number: Some(self.view_number.0), phase: Some(self.phase.enc()),
             high_vote: opt_enc(self.high_vote), high_commit_qc: opt_enc(self.high_commit_qc), high_timeout_qc: opt_enc(self.high_timeout_qc),
             proposals: vec_of_seq(seq_enc(self.proposals@)) }""",
@@ -749,7 +749,7 @@ def build(repo):
                     chains=[dict(recv="self.proposals", methods=["iter", "map", "collect"],
                                  closures={1: dict(ty="&Proposal", ret="verif_o: proto::Proposal", spec="ensures verif_o == {p}.enc()")},
                                  template="tmpl_iter_map_collect(&self.proposals, {a1}, Ghost(|x: Proposal| x.enc()))")]))
-    impl(U, F_STATE0, "ReplicaState", "proto::ReplicaState", """proto::ReplicaState { t: Some(match self {
+    impl(U, F_STATE0, "ReplicaState", "proto::ReplicaState", props=["C09", "C03"], enc="""proto::ReplicaState { t: Some(match self {
             ReplicaState::V2(x) => proto::replica_state::T::V2(x.enc()),
         }) }""")
     # ---- schedule components (Schedule / Genesis themselves go through Schedule::new and are not under this contract)
